@@ -188,3 +188,25 @@ func rawHTTP(method, base, target string, headers [][2]string, body []byte) (*ra
 }
 
 func pathUnescape(p string) (string, error) { return url.PathUnescape(p) }
+
+// transportFailure decides what a failed raw request means: if the lab child reports that the
+// generated handler chain panicked while serving it (net/http then drops the connection), the
+// request was neither dispatched nor answered, which is a verdict; otherwise nothing was observed.
+func transportFailure(c *Ctx, child *lab.Child, pre []lab.Event, caseID string, err error, rp map[string]any) {
+	evs := pre
+	if pre == nil && child != nil {
+		evs, _ = syncEvents(child)
+	}
+	for _, e := range evs {
+		if e.Str("ev") == "panic" && e.Str("where") == "server" {
+			m := map[string]any{"transport_error": err.Error(), "panic": e.Str("value"), "stack": e.Str("stack"), "method": e.Str("method"), "uri": e.Str("uri"), "request_body": string(unb64(e.Str("body")))}
+			for k, v := range rp {
+				m[k] = v
+			}
+			c.R.Violate(caseID, "server-panic", e.Str("value"), m)
+			c.R.Decided(caseID)
+			return
+		}
+	}
+	c.R.Inconclusive(caseID, "http:"+err.Error())
+}
